@@ -106,7 +106,7 @@ def body(run):
                                   observed=dict(err=rm['err'], **rm['observed']), signature=dict(kind='write-mask-wrong'))
     # several blocks, one after the other, into a fresh dataset without a nodata value
     for k in range(run.scale(30, 300)):
-        rb = impl_io.write_blocks_case(run.work, wrng, wrng.randint(4, 12), wrng.randint(4, 12))
+        rb = impl_io.write_blocks_case(run.work, wrng, wrng.randint(4, 12), wrng.randint(4, 12), variant=['once', 'rewrite', 'once', 'rewrite', 'nothing-valid'][k % 5])
         rels['write-blocks'] = rels.get('write-blocks', 0) + 1
         run.count_case(('wb', k), True, rb['desc'] if k < 1 else None)
         if not rb['oracle_ok']:
